@@ -62,6 +62,8 @@ def shard(p):
             t = exact.gen_chain(rng, rng.choice([20, 40, 65, 100, 130, 260, 300]))      # long flat chains: counters, fixed stacks, quadratic folds
         else:
             t = exact.gen_tree(rng, depth, max_digits=p["digits"], max_exp=p["max_exp"])
+        if rng.random() < 0.03:
+            t = exact.reuse_literal(rng, t)
         if t[0] == "lit" and rng.random() < 0.8:
             continue
         try:
